@@ -207,10 +207,47 @@ def _triples(df):
     return [(int(s), int(e), int(r)) for s, e, r in zip(df["start"], df["end"], df["rid"])]
 
 
+OFFSETS = [0, 0, 0, 0, 3 * 10 ** 8, 2 ** 31 - 20, 2 ** 31 + 5, 2 ** 32 + 11]
+
+
+def offset_of(case):
+    """Coordinate offset of a case (0, chromosome-scale, or around 2^31 / 2^32): a pure function of the case JSON."""
+    import json
+    import zlib
+
+    if "offset" in case:
+        return case["offset"]
+    return OFFSETS[zlib.crc32(("off" + json.dumps(case, sort_keys=True, default=str)).encode()) % len(OFFSETS)]
+
+
+def _shifted(case):
+    """The same tables and queries moved up the chromosome by offset_of(case)."""
+    import copy
+
+    off = offset_of(case)
+    if not off:
+        return case
+    c = copy.deepcopy(case)
+    c["offset"] = 0
+    for t in (c["A"], c["Q"]):
+        for r in t["rows"]:
+            r[1] += off
+            r[2] += off
+    for k in ("start", "end"):
+        if c["ir"].get(k) is not None:
+            c["ir"][k] += off
+    if c.get("irs"):
+        for k in ("starts", "ends"):
+            if c["irs"].get(k) is not None:
+                c["irs"][k] = [v + off for v in c["irs"][k]]
+    return c
+
+
 def check_case(case):
     from skgenome import GenomicArray
 
     out = []
+    case = _shifted(case)
     A, Q = case["A"], case["Q"]
 
     def bad(clause, detail):
